@@ -110,6 +110,9 @@ def build(sp, claripy):
         return claripy.FPS(sp[1], claripy.FSORT_FLOAT if sp[2] == "f" else claripy.FSORT_DOUBLE, explicit_name=True)
     if op == "fpv":
         return claripy.FPV(sp[1], claripy.FSORT_FLOAT if sp[2] == "f" else claripy.FSORT_DOUBLE)
+    if op in ("fps_custom", "fpv_custom"):  # two different 16-bit sorts: same total width, different layout
+        so = claripy.fp.FSort("half", 5, 11) if sp[2] == "half" else claripy.fp.FSort("bf16", 8, 8)
+        return claripy.FPS(sp[1], so, explicit_name=True) if op == "fps_custom" else claripy.FPV(sp[1], so)
     if op == "str":
         return claripy.StringS(sp[1], explicit_name=True)
     if op == "strv":
@@ -154,6 +157,19 @@ def build(sp, claripy):
     raise ValueError(op)
 
 
+def _attrs(x):
+    """attributes of an annotation object, with or without a __dict__"""
+    d = getattr(x, "__dict__", None)
+    if d is not None:
+        return d
+    out = {}
+    for c in type(x).__mro__:
+        for n in getattr(c, "__slots__", ()) or ():
+            if hasattr(x, n):
+                out[n] = getattr(x, n)
+    return out
+
+
 def deep(a, claripy, memo=None):
     """deep structure, compared field by field (never via claripy's __eq__ / hash)"""
     Base = claripy.ast.Base
@@ -163,7 +179,7 @@ def deep(a, claripy, memo=None):
             if k in memo:
                 return memo[k]
         # in order: the annotation tuple is ordered (append_annotation vs insert_annotation give different expressions)
-        anns = [json.dumps([type(x).__name__, sorted((kk, repr(vv)) for kk, vv in vars(x).items())]) for x in a.annotations]
+        anns = [json.dumps([type(x).__name__, sorted((kk, repr(vv)) for kk, vv in _attrs(x).items())]) for x in a.annotations]
         r = json.dumps([type(a).__name__, a.op, getattr(a, "length", None), [deep(x, claripy, memo) for x in a.args], anns])
         if memo is not None:
             memo[id(a)] = r
@@ -216,8 +232,10 @@ def gen_leaf(r: Rng):
         return ["fp", "f", r.choice(["f", "d"])]
     if k < 88:
         return ["fpv", r.choice([0.0, -0.0, 1.5, float("inf")]), r.choice(["f", "d"])]
-    if k < 94:
+    if k < 92:
         return ["str", "s"]
+    if k < 95:
+        return ["fps_custom", "h", r.choice(["half", "bf16"])] if r.chance(50) else ["fpv_custom", r.choice([0.0, 1.5]), r.choice(["half", "bf16"])]
     return ["strv", r.choice(["", "a", "ab"])]
 
 
@@ -227,7 +245,7 @@ def sort_of(sp):
         return "bv"
     if op in ("b", "eq", "ult", "and_", "or_", "not_"):
         return "bool"
-    if op in ("fp", "fpv", "fpadd"):
+    if op in ("fp", "fpv", "fpadd", "fps_custom", "fpv_custom"):
         return "fp"
     if op in ("str", "strv", "strcat"):
         return "str"
@@ -508,7 +526,7 @@ def execute(rec):
                 if deep(a, claripy) != before:
                     raise Broken("annotation-change-mutated-original", {"op_index": i, "spec": specs[op["slot"]], "how": how})
                 # the annotation API's own contract: the result is the same node with exactly this annotation tuple
-                ad = lambda x: json.dumps([type(x).__name__, sorted((kk, repr(vv)) for kk, vv in vars(x).items())])  # noqa: E731
+                ad = lambda x: json.dumps([type(x).__name__, sorted((kk, repr(vv)) for kk, vv in _attrs(x).items())])  # noqa: E731
                 have = [ad(x) for x in a.annotations]
                 want = {"append": have + [ad(ann)], "annotate": have + [ad(ann)], "insert": [ad(ann)] + have, "clear": [],
                         "replace": [ad(ann)], "annotate_remove": [ad(ann)]}.get(how)
